@@ -46,6 +46,9 @@ CHECKS = {
  "C16": dict(technique="deterministic simulation: documents served through simulated text streams with scripted read(n) chunking, real files and real paths",
              text="Generated CML documents in the repository's Avogadro flavour (any id scheme incl. shuffled and arbitrary strings, bond list present/empty/absent, coordinates of any sign/magnitude, attribute order varied) are loaded through simulated streams that return 1..n characters per read(n), through a real open file and through str/pathlib paths, via Atoms.load and load_cml; atoms (order, element, exact coordinates) and bonds (multiset of pairs) must equal the document in every delivery mode.",
              note="xml.etree is real code fed by the stub stream. Bond listing order/orientation not judged.", ref="5/C16"),
+ "C15": dict(technique="deterministic simulation: writer -> simulated disk -> independent tokenizer + real reader (scripted chunking) + ASE; restart idempotence; hand-made inputs for the reader",
+             text="Generated structures (cells of every family, terms of every kind, extra columns, coordinates inside/outside/on the boundary) are written as P1 CIF in fractional or Cartesian form through every save branch onto the simulated disk, inspected by an independent CIF tokenizer (cell parameters, element order, coordinates to printed precision, charges, bond/angle/torsion label resolution, extra columns), re-read through path / simulated streams, compared with the reference model (fractional coordinates modulo 1, torsions = dihedrals then impropers), re-written twice (T2 == T3), and compared with ASE's reader; plus a hand-made CIF text per run (s.u. parentheses, Cartesian, coordinates several cells away, P1 / non-P1 names).",
+             note="PyCifRW 5.0.1 and ASE are real. Type labels are not part of a CIF and are not compared.", ref="5/C15"),
 }
 
 NOT_APPLICABLE = [
